@@ -40,6 +40,8 @@ type c15Case struct {
 	Format  string      `json:"format"`
 	Lookups int         `json:"lookups"`
 	Cancel  string      `json:"cancel"` // after | during
+	// Twice: every document is pushed twice in a row (a watcher reports saves that change nothing)
+	Twice bool `json:"twice,omitempty"`
 }
 
 // Configurations A and B: under A 10.1.0.5 is bound to key-A; under B it is denied.  B's provider for
@@ -70,6 +72,9 @@ func c15Config(which string) cfggen.Config {
 	c.Users = []cfggen.User{
 		{Name: "alice", Scopes: []string{"s1", "s2"}, Commands: cmds, Services: svcs, Authenticator: cfggen.BcryptAuth("pw-alpha"), Accounter: file},
 		{Name: "bob", Scopes: []string{"s1", "s2"}, Groups: []cfggen.Group{grp}},
+		// own rules and services as well as a group's, in numbers (3 and 5) for which a decoder's slices
+		// tend to have spare capacity: merging the group's behind them must not write into what is published
+		{Name: "carl", Scopes: []string{"s1", "s2"}, Commands: cmds, Services: append(append([]cfggen.Service{}, svcs...), cfggen.Service{Name: "s3"}, cfggen.Service{Name: "s4"}, cfggen.Service{Name: "s5"}), Groups: []cfggen.Group{grp}, Authenticator: cfggen.BcryptAuth("pw-alpha")},
 		// no hash option: the credential comes from the keychain on every login
 		{Name: "kc", Scopes: []string{"s1", "s2"}, Authenticator: &cfggen.Authenticator{Type: cfggen.AuthnBcrypt, Options: map[string]string{"key": "kc", "group": "g"}}},
 	}
@@ -83,7 +88,7 @@ func genC15(t *rapid.T) c15Case {
 		cl := c15Client{Mux: rapid.Bool().Draw(t, "mux"), Churn: rapid.IntRange(0, 2).Draw(t, "churn")}
 		k := rapid.IntRange(1, 6).Draw(t, "nops")
 		for j := 0; j < k; j++ {
-			cl.Ops = append(cl.Ops, rapid.SampledFrom([]string{"cmd", "cmd", "cmd", "session", "acct", "pap", "ascii", "pap-kc", "pap-kc"}).Draw(t, "op"))
+			cl.Ops = append(cl.Ops, rapid.SampledFrom([]string{"cmd", "cmd", "cmd", "session", "acct", "pap", "ascii", "pap-kc", "pap-kc", "cmd-carl", "session-carl", "session-carl"}).Draw(t, "op"))
 		}
 		c.Clients = append(c.Clients, cl)
 	}
@@ -95,6 +100,7 @@ func genC15(t *rapid.T) c15Case {
 		c.Reloads = append(c.Reloads, rapid.SampledFrom([]string{"A", "B", "B", "C"}).Draw(t, "reload"))
 	}
 	c.Lookups = rapid.IntRange(20, 200).Draw(t, "lookups")
+	c.Twice = rapid.Bool().Draw(t, "reload_same_document_twice")
 	return c
 }
 
@@ -292,6 +298,12 @@ func runC15(t failer, c c15Case) c15Result {
 				case "session":
 					typ = 2
 					body = model.AuthorRequest{Method: 6, Priv: 1, AType: 1, Service: 1, User: b("bob"), Port: b("tty0"), RemAddr: b("r"), Args: []model.B{b("service=shell"), b("cmd=")}}.Encode()
+				case "cmd-carl":
+					typ = 2
+					body = model.AuthorRequest{Method: 6, Priv: 1, AType: 1, Service: 1, User: b("carl"), Port: b("tty0"), RemAddr: b("r"), Args: []model.B{b("service=shell"), b("cmd=show"), b("cmd-arg=version")}}.Encode()
+				case "session-carl":
+					typ = 2
+					body = model.AuthorRequest{Method: 6, Priv: 1, AType: 1, Service: 1, User: b("carl"), Port: b("tty0"), RemAddr: b("r"), Args: []model.B{b("service=ppp"), b("protocol=ip")}}.Encode()
 				case "acct":
 					typ = 3
 					body = model.AcctRequest{Flags: 2, Method: 6, Priv: 1, AType: 1, Service: 1, User: b("alice"), Port: b("tty0"), RemAddr: b("r"), Args: []model.B{b("task_id=1")}}.Encode()
@@ -331,6 +343,10 @@ func runC15(t failer, c c15Case) c15Result {
 		for _, w := range c.Reloads {
 			_ = st.Unmarshal(docs[w])
 			runtime.Gosched()
+			if c.Twice {
+				_ = st.Unmarshal(docs[w])
+				runtime.Gosched()
+			}
 		}
 		// settle: push the last document twice more so that it is fully applied when we return
 		last := docs[c.Reloads[len(c.Reloads)-1]]
